@@ -233,3 +233,32 @@ mut("c09-zero-mask-after-fill", "C09", [(CDF, "            indices_with_null_val
 ben("c09-flipped-comparison", ["C09", "C01"], [(CDF, "reporting_units = self.data[self.data.percent_expected_vote >= percent_reporting_threshold]", "reporting_units = self.data[percent_reporting_threshold <= self.data.percent_expected_vote]")])
 ben("c09-not-ge", ["C09", "C01"], [(CDF, "nonreporting_units = self.data[self.data.percent_expected_vote < percent_reporting_threshold]", "nonreporting_units = self.data[~(self.data.percent_expected_vote >= percent_reporting_threshold)]")])
 ben("c09-weights-commuted", ["C09"], [(ESF, "data_df[generated_weights_column_name] = data_df[f\"{col_prefix}dem\"] + data_df[f\"{col_prefix}gop\"]", "data_df[generated_weights_column_name] = data_df[f\"{col_prefix}gop\"] + data_df[f\"{col_prefix}dem\"]")])
+
+# ------------------------------------------------------------------------------------------- C01
+BE = M + "BaseElectionModel.py"
+MRF = D + "ModelResults.py"
+mut("c01-unexpected-not-removed-noop", "C01", [(CDF, "        unexpected_units = (\n            self.current_data[~self.current_data[\"geographic_unit_fips\"].isin(expected_geographic_units)]", "        unexpected_units = (\n            self.current_data[self.current_data[\"geographic_unit_fips\"].isin(expected_geographic_units)]")], "C01.R1")
+mut("c01-nonmodelled-not-removed-from-reporting", "C01", [(CDF, "        reporting_units = reporting_units[\n            ~reporting_units.geographic_unit_fips.isin(non_modeled_units.geographic_unit_fips)\n        ].reset_index(drop=True)\n", "")], "C01.R1")
+mut("c01-threshold-gap", "C01", [(CDF, "nonreporting_units = self.data[self.data.percent_expected_vote < percent_reporting_threshold]", "nonreporting_units = self.data[self.data.percent_expected_vote < percent_reporting_threshold - 1]")], "C01.R1")
+mut("c01-unexpected-dropped-from-third", "C01", [(CDF, "all_unexpected_units = pd.concat([unexpected_units, non_modeled_units]).reset_index(drop=True)", "all_unexpected_units = pd.concat([non_modeled_units]).reset_index(drop=True)")], "C01")
+mut("c01-unit-table-drops-unexpected", "C01", [(MRF, "            [self.reporting_units, self.nonreporting_units, self.unexpected_units]\n        ).sort_values", "            [self.reporting_units, self.nonreporting_units]\n        ).sort_values")], "C01.R2")
+mut("c01-unit-table-filter", "C01", [(MRF, "        self.unit_data[estimand] = pd.concat(\n            [self.reporting_units, self.nonreporting_units, self.unexpected_units]\n        ).sort_values(\"geographic_unit_fips\")[", "        all_units = pd.concat(\n            [self.reporting_units, self.nonreporting_units, self.unexpected_units]\n        )\n        self.unit_data[estimand] = all_units[all_units.unit_category != \"non-modeled: zero baseline\"].sort_values(\"geographic_unit_fips\")[")], "C01.R2")
+mut("c01-handler-frames-swapped", "C01", [(CL, "aggregates, prediction_intervals, reporting_units, nonreporting_units, unexpected_units\n        )", "aggregates, prediction_intervals, reporting_units, unexpected_units, nonreporting_units\n        )")], "C01.R2")
+mut("c01-merge-left-unexpected", "C01", [(BE, "                    unexpected_units_known_votes,\n                    how=\"outer\",", "                    unexpected_units_known_votes,\n                    how=\"left\",")], "C01.R3")
+mut("c01-merge-left-preds", "C01", [(BE, "aggregate_votes.merge(aggregate_preds, how=\"outer\", on=aggregate)", "aggregate_votes.merge(aggregate_preds, how=\"left\", on=aggregate)")], "C01.R3")
+mut("c01-fillna-misses-unexpected", "C01", [(BE, "                        f\"results_{estimand}_unexpected\": 0,\n", "")], "C01.R3")
+mut("c01-results-only-not-added", "C01", [(BE, "f\"results_{estimand}\": lambda x: x[f\"results_{estimand}\"] + x[f\"results_only_{estimand}\"],", "f\"results_{estimand}\": lambda x: x[f\"results_{estimand}\"],")], "C01.R3")
+mut("c01-reporting-ignores-unexpected", "C01", [(BE, "reporting_col: lambda x: x[\"reporting_expected\"] + x[\"reporting_unexpected\"],", "reporting_col: lambda x: x[\"reporting_expected\"],")], "C01.R3")
+mut("c01-fillna-results-only-missing", "C01", [(BE, "                    f\"results_only_{estimand}\": 0,\n", "")], "C01.R3")
+mut("c01-nonparam-overrides-agg", "C01", [(M + "NonparametricElectionModel.py", "    def get_all_conformalization_data_unit(self)", "    def get_aggregate_predictions(self, reporting_units, nonreporting_units, unexpected_units, aggregate, estimand, **kwargs):\n        empty = unexpected_units.iloc[0:0]\n        return super().get_aggregate_predictions(reporting_units, nonreporting_units, empty, aggregate, estimand)\n\n    def get_all_conformalization_data_unit(self)")], "C01.R3")
+mut("c01-boot-results-margin-other-divisor", "C01", [(BS, "raw_margin_df[\"results_margin\"] = np.nan_to_num(raw_margin_df.results_margin / aggregate_z_total)", "raw_margin_df[\"results_margin\"] = np.nan_to_num(raw_margin_df.results_margin / (aggregate_z_train + aggregate_z_unexpected).flatten())")], "C01.R4")
+mut("c01-boot-turnout-no-unexpected", "C01", [(BS, "        aggregate_z_total = (\n            aggregate_z_unexpected + aggregate_z_train + aggregate_indicator_test.T @ self.weighted_z_test_pred\n        ).flatten()\n\n        # use get_aggregate_predictions", "        aggregate_z_total = (\n            aggregate_z_train + aggregate_indicator_test.T @ self.weighted_z_test_pred\n        ).flatten()\n\n        # use get_aggregate_predictions")], "C01.R4")
+mut("c01-boot-concat-order", "C01", [(BS, "        n_train = reporting_units.shape[0]\n        n_test = nonreporting_units.shape[0]\n\n        all_units = pd.concat([reporting_units, nonreporting_units, unexpected_units], axis=0)\n\n        # if we want to aggregate to something that isn't postal_code", "        n_train = reporting_units.shape[0]\n        n_test = nonreporting_units.shape[0]\n\n        all_units = pd.concat([reporting_units, unexpected_units, nonreporting_units], axis=0)\n\n        # if we want to aggregate to something that isn't postal_code")], "C01.R4")
+mut("c01-boot-train-slice-off", "C01", [(BS, "        aggregate_indicator_train = aggregate_indicator_expected[:n_train]\n        aggregate_indicator_test = aggregate_indicator_expected[n_train:]\n        weights_train = reporting_units[\"baseline_weights\"].values.reshape(-1, 1)\n        z_train = reporting_units[\"turnout_factor\"].values.reshape(-1, 1)\n\n        # get turnout for aggregate (w_i * z_i)", "        aggregate_indicator_train = aggregate_indicator_expected[:n_test]\n        aggregate_indicator_test = aggregate_indicator_expected[n_train:]\n        weights_train = reporting_units[\"baseline_weights\"].values.reshape(-1, 1)\n        z_train = reporting_units[\"turnout_factor\"].values.reshape(-1, 1)\n\n        # get turnout for aggregate (w_i * z_i)")], "C01.R4")
+mut("c01-merge-keys-old", "C01", [(MRF, "            merge_on = key_columns + [\"reporting\"]", "            merge_on = [\"postal_code\", \"reporting\", agg]")], "C01.R5")
+mut("c01-merge-keys-unit-old", "C01", [(MRF, "merge_on = [\"postal_code\", \"reporting\", \"geographic_unit_fips\", \"unit_category\"]", "merge_on = [\"postal_code\", \"reporting\", \"geographic_unit_fips\"]")], "C01.R5")
+mut("c01-keys-requested-only", "C01", [(CL, "            outlier_z_threshold,\n            aggregate_keys,\n        )", "            outlier_z_threshold,\n            aggregates,\n        )")], "C01.R6")
+mut("c01-district-never-recovered", "C01", [(CDF, "        if \"district\" in aggregates:\n            unexpected_units[\"district\"]", "        if \"district\" in aggregates and \"county_fips\" not in aggregates:\n            unexpected_units[\"district\"]")], "C01.R6")
+ben("c01-merge-keys-explicit", ["C01"], [(MRF, "            key_columns = [col for col in self.estimates[agg][0].columns if col in AGGREGATE_ORDER]\n            merge_on = key_columns + [\"reporting\"]", "            merge_on = [col for col in self.estimates[agg][0].columns if col in AGGREGATE_ORDER] + [\"reporting\"]")])
+ben("c01-assign-order", ["C01"], [(BE, "                        results_col: lambda x: x[f\"results_{estimand}_expected\"] + x[f\"results_{estimand}_unexpected\"],\n                        reporting_col: lambda x: x[\"reporting_expected\"] + x[\"reporting_unexpected\"],", "                        reporting_col: lambda x: x[\"reporting_unexpected\"] + x[\"reporting_expected\"],\n                        results_col: lambda x: x[f\"results_{estimand}_unexpected\"] + x[f\"results_{estimand}_expected\"],")])
+ben("c01-helper-local", ["C01"], [(BE, "        aggregate_votes = self._get_reporting_aggregate_votes(reporting_units, unexpected_units, aggregate, estimand)\n\n        # these are subunits that are not already counted", "        counted = self._get_reporting_aggregate_votes(reporting_units, unexpected_units, aggregate, estimand)\n        aggregate_votes = counted\n\n        # these are subunits that are not already counted")])
